@@ -1,6 +1,7 @@
 package props
 
 import (
+	"io"
 	"bytes"
 	"context"
 	"encoding/json"
@@ -296,7 +297,22 @@ func c09Templates() []c09Tpl {
 		{"catch-deep-2000", `func f(n) {if n > 2000 {for true {}}; catch(f(n + 1)); 1}; f(0)`, "", 0, 500},
 		{"catch-deep-4000", `func f(n) {if n > 4000 {for true {}}; catch(f(n + 1)); 1}; f(0)`, "", 0, 500},
 		{"catch-deep-9000", `func f(n) {if n > 9000 {for true {}}; r = catch(f(n + 1)); if r.err {n} else {r.value}}; f(0)`, "", 0, 500},
+		{"log-deep-3000", `func f(n) {if n == 0 {for true {}}; log(f(n - 1)); 1}; f(3000)`, "", 0, 500},
+		{"if-deep-4000", `func f(n) {if n == 0 {for true {}}; if f(n - 1) {1} else {2}}; f(4000)`, "", 0, 500},
+		{"index-deep-4000", `func f(n) {if n == 0 {for true {}}; [f(n - 1)][0]; 1}; f(4000)`, "", 0, 500},
+		{"eval-macro-deep", `m = macro(x) {f = func(n) {if n == 0 {return 0}; f(n - 1)}; f(100000); quote(unquote(x) + 1)}; func g(n) {if n == 0 {return eval("m(3)")}; g(n - 1)}; g(100000)`, "depth", 0, 60000},
 		{"catch-deep-loop", `func f(n) {if n > 3000 {for true {}}; for 3 {catch(f(n + 1))}; 1}; f(0)`, "", 0, 500},
+		// extensions that build strings: many separators, few bytes of elements
+		{"join-separators", `s = "y" * 1000000; a = [""] * 600; len(join(a, s))`, "mem", 100, 8000},
+		{"join-separators-2", `s = "yz" * 20000000; len(join(["a", "b", "c", "d", "e", "f", "g", "h", "i", "j", "k", "l"], s))`, "mem", 100, 8000},
+		// extensions whose result is many times their arguments, and output captured for the function cache
+		{"amplify-regsub", `len(regsub("", "x" * 300000, "y" * 2000))`, "mem", 100, 20000},
+		{"amplify-sprintfshared", `len(sprintf("%v", ["x" * 1000000] * 500))`, "mem", 100, 20000},
+		{"amplify-jsonshared", `len(json(["x" * 1000000] * 500))`, "mem", 100, 20000},
+		{"amplify-sprintfwidth", `len(sprintf("%1000000d" * 500, [1] * 500))`, "mem", 100, 20000},
+		{"printing-capture", `func f() {for true {print("x" * 1000000)}}; x = f(); 1`, "mem", 100, 4000},
+		{"printing-nested", `func g() {for 200 {print("y" * 1000000)}; 1}; func f() {for true {g()}}; f()`, "mem", 100, 4000},
+		{"printing-toplevel", `for true {println("z" * 1000000)}`, "mem", 100, 3000},
 		// results remembered by the function cache are memory too
 		{"memo-accumulate-4k", `func f(n) {"a" * 4000 + sprintf("%d", n)}; for i = 0:100000000 {f(i)}; 1`, "mem", 100, 20000},
 		{"memo-accumulate-arr", `func f(n) {[n, n + 1, n + 2, n + 3, n + 4, n + 5, n + 6]}; for i = 0:100000000 {f(i)}; 1`, "mem", 100, 20000},
@@ -355,7 +371,22 @@ func c09Child(args []string) int {
 	opts.MaxDepth = depth
 	opts.MaxDuration = time.Duration(durMs) * time.Millisecond
 	start := time.Now()
-	res, errs, _ := repl.EvalStringWithOption(context.Background(), opts, string(b))
+	var res string
+	var errs []string
+	if os.Getenv("VERIF_C09_DISCARD_OUTPUT") != "" {
+		// what the program prints goes to a writer that keeps nothing (like a terminal or /dev/null), so that only what the
+		// interpreter itself holds on to is measured
+		st := eval.NewState()
+		st.Out = io.Discard
+		st.LogOut = io.Discard
+		st.NoLog = true
+		if depth > 0 {
+			st.MaxDepth = depth
+		}
+		_, _, errs, _ = repl.EvalOne(context.Background(), st, string(b), io.Discard, opts)
+	} else {
+		res, errs, _ = repl.EvalStringWithOption(context.Background(), opts, string(b))
+	}
 	el := time.Since(start)
 	out := c09ChildOut{ElapsedMs: el.Milliseconds(), Errs: errs, ResLen: len(res)}
 	full := strings.Join(errs, " | ")
@@ -396,6 +427,9 @@ func (p c09) child(c *fw.Ctx, t c09Tpl, depth, durMs int, dir string) (kind, det
 	cmd.Env = append(os.Environ(), "GOMEMLIMIT=256MiB", "GOTRACEBACK=single")
 	if strings.HasPrefix(t.name, "unrestricted-") {
 		cmd.Env = append(cmd.Env, "VERIF_C09_UNRESTRICTED=1")
+	}
+	if strings.HasPrefix(t.name, "printing-") {
+		cmd.Env = append(cmd.Env, "VERIF_C09_DISCARD_OUTPUT=1")
 	}
 	var outb, errb bytes.Buffer
 	cmd.Stdout = &outb
